@@ -644,3 +644,106 @@ func lexArgDesc(cfg LexConfig, v ssa.Value) string {
 	}
 	return "value"
 }
+
+// CyclesWithoutEOFTest finds lexing loops of fn that have a cycle on which end of input is never
+// tested: blocks ending in a branch on eof() / the ok result of peek (whose one edge leaves the
+// loop) cut the cycle; a loop that still has a cycle cannot notice the end of the input.
+func CyclesWithoutEOFTest(fn *ssa.Function, cfg LexConfig) []*ssa.BasicBlock {
+	isEOFTest := func(v ssa.Value) bool {
+		for {
+			if u, ok := v.(*ssa.UnOp); ok && u.Op == token.NOT {
+				v = u.X
+				continue
+			}
+			break
+		}
+		switch x := v.(type) {
+		case *ssa.Call:
+			return x.Call.StaticCallee() == cfg.EOF
+		case *ssa.Extract:
+			if call, ok := x.Tuple.(*ssa.Call); ok && call.Call.StaticCallee() == cfg.Peek && x.Index == 1 {
+				return true
+			}
+		}
+		return false
+	}
+	var bad []*ssa.BasicBlock
+	for _, h := range fn.Blocks {
+		isHeader := false
+		for _, p := range h.Preds {
+			if h.Dominates(p) {
+				isHeader = true
+			}
+		}
+		if !isHeader {
+			continue
+		}
+		// only loops that consume input
+		consumes := false
+		inLoop := map[*ssa.BasicBlock]bool{h: true}
+		var work []*ssa.BasicBlock
+		for _, p := range h.Preds {
+			if h.Dominates(p) {
+				work = append(work, p)
+			}
+		}
+		for len(work) > 0 {
+			b := work[len(work)-1]
+			work = work[:len(work)-1]
+			if inLoop[b] {
+				continue
+			}
+			inLoop[b] = true
+			for _, p := range b.Preds {
+				work = append(work, p)
+			}
+		}
+		for b := range inLoop {
+			for _, ins := range b.Instrs {
+				if call, ok := ins.(ssa.CallInstruction); ok {
+					n := methodName(call.Common())
+					if n != nil && (n == cfg.Read || contains(cfg.MatchLike, n)) {
+						consumes = true
+					}
+				}
+			}
+		}
+		if !consumes {
+			continue
+		}
+		cut := func(b *ssa.BasicBlock) bool {
+			ifi, ok := b.Instrs[len(b.Instrs)-1].(*ssa.If)
+			if !ok || !isEOFTest(ifi.Cond) {
+				return false
+			}
+			// one edge must leave the loop
+			return !inLoop[b.Succs[0]] || !inLoop[b.Succs[1]]
+		}
+		seen := map[*ssa.BasicBlock]bool{}
+		var dfs func(b *ssa.BasicBlock) bool
+		dfs = func(b *ssa.BasicBlock) bool {
+			if cut(b) {
+				return false
+			}
+			for _, s := range b.Succs {
+				if !inLoop[s] {
+					continue
+				}
+				if s == h {
+					return true
+				}
+				if !seen[s] {
+					seen[s] = true
+					if dfs(s) {
+						return true
+					}
+				}
+			}
+			return false
+		}
+		if dfs(h) {
+			bad = append(bad, h)
+		}
+	}
+	return bad
+}
